@@ -33,6 +33,9 @@ ASSUMPTIONS = [
     'measurement values are single precision by the IOD (FloatingPointValues is OF): the oracle compares with float32(input)',
     'no negative zero among z coordinates (numpy.unique identifies -0.0 and 0.0; cell equality in the model is identity)',
     'NaN payloads are not distinguished: an absent measurement is any NaN',
+    'the caller does not modify the LIST object get_graphic_data hands out (it is the cached list: a pop() changes the number of annotations '
+    'reported) nor, after construction, the arrays it handed to the constructor (a fresh group returns those very arrays): both observed on the '
+    'unchanged tree, not claimed; every ARRAY a parsed object hands out is either read-only or a fresh copy (scribbled over between reads)',
 ]
 MODELLED_NOT_VERIFIED = ['numpy concatenate/flatten/tobytes/frombuffer/split/unique', 'pydicom writer and reader (OF/OD/OL/FD elements)',
                          'copy.deepcopy', 'SOPClass base constructor and the attribute-table shim']
@@ -306,6 +309,19 @@ def _expected_meas(spec):
     return [np.asarray(m['values']).astype(np.float32) for m in spec['meas']]
 
 
+def _scribble(res):
+    """the caller edits what it was given in place (every array it is ALLOWED to write to); returns how many arrays took the edit"""
+    n = 0
+    for a in (res if isinstance(res, (list, tuple)) else [res]):
+        if isinstance(a, np.ndarray) and a.size and a.flags.writeable:
+            try:
+                a[...] = a.dtype.type(-777)
+                n += 1
+            except Exception:  # noqa: BLE001
+                pass
+    return n
+
+
 # ------------------------------------------------------------------ observations on one group through one path
 def _histories(ctx, spec, g, path, ct, reqs, pending, case):
     """call-order histories on copies of a parsed group that has NOT been decoded yet: per-annotation access first (last,
@@ -386,6 +402,8 @@ def _histories(ctx, spec, g, path, ct, reqs, pending, case):
                     fail(c2, f'whole-group access after {oname} differs from the stored input ({res if st != "ok" else ""})',
                              site=f'{wsite}/{path}')
                 impl.append(['ok', [[_tok(row) for row in np.asarray(x)] for x in res]] if st == 'ok' else ['err', _kind(res)])
+                if st == 'ok':
+                    ctx.hist('scribbled_arrays', 'get_graphic_data', _scribble(res))
             else:
                 k = a[1]
                 st, res = _try(d.get_coordinates, k, ct)
@@ -397,6 +415,8 @@ def _histories(ctx, spec, g, path, ct, reqs, pending, case):
                 elif st == 'ok':
                     fail(c2, f'annotation number {k} outside 1..{n} accepted on a freshly parsed group', site=f'history/{path}')
                 impl.append(['ok', [_tok(row) for row in np.asarray(res)]] if st == 'ok' else ['err', _kind(res)])
+                if st == 'ok':
+                    ctx.hist('scribbled_arrays', 'get_coordinates', _scribble(res))
         reqs.append(('history', {'gtype': spec['gtype'], 'enc': sv, 'ct': ct, 'via': None if standalone else ct,
                                  'accesses': [['whole', a[-1] if a[-1] in ('2D', '3D') else ct] if a[0] == 'whole' else
                                               ['nth', a[1], a[-1] if a[-1] in ('2D', '3D') else ct] for a in acc]}))
@@ -414,10 +434,14 @@ def _histories(ctx, spec, g, path, ct, reqs, pending, case):
                     sel = [j for j, m in enumerate(spec['meas']) if m['name'] == t]
                     ok &= st == 'ok' and np.asarray(res[1]).shape == (n, len(sel)) and \
                         all(_same(np.asarray(res[1])[:, q], wm[j]) for q, j in enumerate(sel))
+                    if st == 'ok':
+                        ctx.hist('scribbled_arrays', 'get_measurements', _scribble(res[1]))
             else:
                 for j, ms in enumerate(d.MeasurementsSequence):
                     st, v = _try(ms.get_values, n)
                     ok &= st == 'ok' and _same(v, wm[j])
+                    if st == 'ok':
+                        ctx.hist('scribbled_arrays', 'get_values', _scribble(v))
             st, res = _try(d.get_measurements)
             ok &= st == 'ok' and np.asarray(res[1]).shape == (n, len(wm)) and all(_same(np.asarray(res[1])[:, j], w) for j, w in enumerate(wm))
             st2, gd = _try(d.get_graphic_data, ct)
@@ -688,6 +712,8 @@ def _instance_history(ctx, specs, inst, ct, base, r, reqs, pending):
             st, res = _try(g.get_graphic_data, act)
             good = (st != 'ok') if act != ct else (st == 'ok' and len(res) == n and all(_same(x, w) for x, w in zip(res, want)))
             impl.append(['ok', [[_tok(row) for row in np.asarray(x)] for x in res]] if st == 'ok' else ['err', _kind(res)])
+            if st == 'ok':
+                _scribble(res)
         else:
             k = r.choice([0, 1, n, n + 1, r.randint(1, max(n, 1))])
             accs.append([gi, 'nth', k, act])
@@ -697,6 +723,8 @@ def _instance_history(ctx, specs, inst, ct, base, r, reqs, pending):
             else:
                 good = st == 'ok' and _same(res, want[k - 1])
             impl.append(['ok', [_tok(row) for row in np.asarray(res)]] if st == 'ok' else ['err', _kind(res)])
+            if st == 'ok':
+                _scribble(res)
         if not good and bad is None:
             bad = (step, accs[-1])
     case = dict(base, what='instance-history', accesses=accs)
